@@ -1,0 +1,16 @@
+//go:build verif
+
+package modules
+
+import "time"
+
+// C05 verification helpers (build tag "verif" only).
+
+// verifTrue is verifEvent usable inside a condition chain.
+func verifTrue(point string, args ...any) bool {
+	verifEvent(point, args...)
+	return true
+}
+
+// VerifSetStopTimeout overrides the time stopAllTasks waits for stop function, workers and tasks.
+func VerifSetStopTimeout(d time.Duration) { moduleStopTimeout = d }
